@@ -33,7 +33,7 @@ namespace bloc
 
 Value& MemberCONCATExpression::value(Context& ctx) const
 {
-  Value& val = _exp->value(ctx);
+  Value& val = receiver(ctx);
   Value& a0 = _args[0]->value(ctx);
 
   /* collection */
